@@ -68,6 +68,7 @@ DecOK(r) ==
 
 LiveOK(r) == /\ r.processAlive /\ r.healthyWorks /\ r.laterWorks
              /\ (r.offenderClosed \/ r.errorReported \/ r.accepted)
+             /\ (r.offenderClosed \/ r.offenderUsable)      \* a socket that is kept is not wedged (emits with acknowledgements still work)
 
 Chk(ok) == IF ok THEN TRUE ELSE PrintT(<<"STEP_MISMATCH", l>>)
 TEnc == IsEvent("enc") /\ Chk(EncOK(Rec))
